@@ -9,7 +9,7 @@
    Undefined is the value of a byte PDFDocEncoding leaves unassigned.                          *)
 EXTENDS Naturals, Sequences
 
-Undefined == 1114112    \* one past the last scalar value
+Undefined == 1114112    \* one past the last scalar value (same value as EncodingTables!Undefined)
 
 PDFDocHigh ==  \* bytes 128..160
   <<8226, 8224, 8225, 8230, 8212, 8211, 402, 8260, 8249, 8250, 8722, 8240, 8222, 8220, 8221, 8216,
